@@ -18,11 +18,12 @@ from vf.runner import Ob
 from vf.sched import Sched
 
 LEVEL = "other"
-TECHNIQUE = ('symx: symbolic power-loss index over the FakeOS call trace in a durability-shadow model + flip-instant durability assertion under symbolic schedules; must-fail twins')
+TECHNIQUE = ('symx: symbolic power-loss index over the FakeOS call trace in a durability-shadow model + flip-instant durability assertion under symbolic schedules + symbolic failing-fsync index; must-fail twins')
 EXPLANATION = (
     "Bounded symbolic execution (symx/z3) of every local operation type with a symbolic power-loss index over its "
     "complete FakeOS call trace, evaluated in a power-loss model that drops all unflushed content and unpersisted "
-    "renames; plus the flip-instant durability assertion on every pointer rename including two scheduled writers.")
+    "renames; plus the flip-instant durability assertion on every pointer rename including two scheduled writers (also "
+    "pre-empted around every directory fsync), and a symbolic index of the file / directory fsync that fails with EIO.")
 RULE = "one case = one explored path (one power-loss index, or one schedule); non-trivial = z3 decided the index / a scheduling choice"
 ASSUMPTIONS = [
     "power-loss model: surviving content = content at the file's last fsync, surviving directory entries = entries at the directory's last fsync",
